@@ -282,12 +282,12 @@ impl ClientCtx<'_, '_, '_, '_> {
 
         let elapsed = self.query_start.elapsed();
 
-        let time_left = if elapsed < timeout {
-            timeout - elapsed
-        } else {
-            Duration::from_millis(0)
-        };
+        if elapsed >= timeout {
+            // the current attempt has used up its time: report it as a time-out,
+            // which makes `udp_exchange` retry (a zero socket timeout is an error)
+            return Err(Error::IoError(ErrorKind::TimedOut.into()));
+        }
 
-        Ok(time_left.min(lifetime_left))
+        Ok((timeout - elapsed).min(lifetime_left))
     }
 }
